@@ -89,7 +89,8 @@ Print Assumptions C12_finder_alpha.
 (* after every search round of a reachable state: a probe is running or the end marker has been queued *)
 Theorem C12_finder_progress : forall prm evs ev st' outs tag,
   fp_cap prm = real_cap ->
-  (exists good, ev = EStart good) \/ (exists p good, ev = EDone p good /\ f_on (final_state prm evs) = true) ->
+  (exists good, ev = EStart good) \/
+  (exists p tid good, ev = EDone p tid good /\ f_on (final_state prm evs) = true) ->
   fstep prm (final_state prm evs) ev = (st', outs, tag) ->
   f_running st' <> [] \/ In OFinish outs.
 Proof. exact (fun prm evs ev st' outs tag => round_progress prm MAX_VALUE_PAGES evs ev st' outs tag). Qed.
@@ -116,6 +117,27 @@ Theorem C12_uncapped_pager_refuted :
 Proof. exact uncapped_pager_refuted. Qed.
 Print Assumptions C12_uncapped_pager_refuted.
 
+(* the done-callback (commit 8221320: a finished probe removes only its OWN running_probes entry): along every run in
+   which each callback comes after its task's result, "no probe tracked as running" implies "no probe result
+   pending" - so the end of the search (declared only when nothing is tracked) never drops a page on its way *)
+Theorem C12_finder_exhaustion_sound : forall (prm : fparams) (evs : list fev),
+  fp_stalepop prm = false -> run_wf prm f_init evs ->
+  f_running (final_state prm evs) = [] -> f_pending (final_state prm evs) = [].
+Proof. exact exhaustion_sound. Qed.
+Print Assumptions C12_finder_exhaustion_sound.
+
+(* the callback before 8221320 (pop whatever entry the peer has): on a well-formed run of six events the end is
+   declared while the next page of peer 2 is pending; the repaired callback keeps it tracked on the same events *)
+Theorem C12_stale_pop_refuted :
+  run_wf (prm_race true) f_init race_evs /\
+  f_running (final_state (prm_race true) race_evs) = [] /\
+  f_pending (final_state (prm_race true) race_evs) = [(2%N, 2)] /\
+  In OFinish (fst (last (snd (frun (prm_race true) f_init race_evs)) ([], 0%N))) /\
+  f_running (final_state (prm_race false) race_evs) = [2%N] /\
+  ~ In OFinish (fst (last (snd (frun (prm_race false) f_init race_evs)) ([], 0%N))).
+Proof. exact stale_pop_refuted. Qed.
+Print Assumptions C12_stale_pop_refuted.
+
 (* ---------------- outputs ---------------- *)
 (* node lookup, any state, any event: a yielded peer was reported good by the peer manager at that moment
    (it replied), was never yielded before, and its record is not the searching node *)
@@ -123,7 +145,7 @@ Theorem C12_outputs_valid_node : forall prm st ev st' outs tag ps x,
   fstep prm st ev = (st', outs, tag) -> In (OYield ps) outs -> In x ps ->
   In x (good_of ev) /\ ~ In x (f_yielded st) /\
   exists q, In q (f_active st') /\ pid q = x /\ self_id q = false.
-Proof. exact node_yield_valid. Qed.
+Proof. exact node_yield_valid'. Qed.
 Print Assumptions C12_outputs_valid_node.
 
 (* value lookup: a yielded address is one of the event's raw items and decodes as a well-formed public address *)
@@ -131,7 +153,7 @@ Theorem C12_outputs_valid_value : forall prm st ev st' outs tag cs c,
   fstep prm st ev = (st', outs, tag) -> In (OVYield cs) outs -> In c cs ->
   valid_compact c = true /\
   exists p sb raw pages cts chk, ev = EValueReply p sb raw pages cts chk /\ In (VB c) raw.
-Proof. exact value_yield_valid. Qed.
+Proof. exact value_yield_valid'. Qed.
 Print Assumptions C12_outputs_valid_value.
 
 Theorem C12_valid_compact_spec : forall bs, valid_compact bs = true ->
@@ -163,6 +185,23 @@ Theorem C12_first_page_fits : forall (cs : list (nat * N)) (c : nat) (pages : N)
 Proof. exact first_page_fits. Qed.
 Print Assumptions C12_first_page_fits.
 
+(* KademliaRPC.store (commit 0c01d02) only accepts tcp ports 1024..65535: every stored peer with a public address
+   has a compact address that every searcher decodes as well-formed (no page is discarded because of it) *)
+Theorem C12_stored_peer_compact_valid : forall (ip id : bytes) (port : N),
+  length ip = 4 -> length id = 48 ->
+  public_ip (nthN ip 0) (nthN ip 1) (nthN ip 2) (nthN ip 3) = true -> store_port_ok port = true ->
+  valid_compact (mk_compact_addr ip port id) = true.
+Proof. exact stored_peer_compact_valid. Qed.
+Print Assumptions C12_stored_peer_compact_valid.
+
+(* PingQueue.enqueue_maybe_ping keeps the EARLIER time: once a contact is queued for time a, whatever is enqueued
+   afterwards (further requests of the same busy contact included) its verification ping is due at a or before *)
+Theorem C12_ping_never_postponed : forall (ops : list (N * Z)) (q : pq) (p : N) (a : Z),
+  pq_get q p = Some a ->
+  exists t, pq_get (fold_left (fun s o => pq_enqueue s (fst o) (snd o)) ops q) p = Some t /\ (t <= a)%Z.
+Proof. exact pq_never_postponed. Qed.
+Print Assumptions C12_ping_never_postponed.
+
 (* ---------------- non-vacuity / concrete instances ---------------- *)
 (* F9 (machine-checked): 89 peers on one node, old page count: 88 delivered *)
 Example C12_ex_old_89 : delivered_old N.eqb (seqN 89) = firstn 88 (seqN 89).
@@ -187,12 +226,12 @@ Proof. vm_compute. reflexivity. Qed.
    contact; one times out; the lookup ends by exhaustion and yields the two good peers closest first *)
 Definition ex_peer (i d : N) : peer := {| pid := i; pdist := d; has_id := true; self_id := false; self_addr := false |}.
 Definition ex_me : peer := {| pid := 9; pdist := 0; has_id := true; self_id := true; self_addr := true |}.
-Definition ex_prm : fparams := {| fp_kind := KNode; fp_key_is_self := false; fp_maxres := 16; fp_cap := real_cap |}.
+Definition ex_prm : fparams := {| fp_kind := KNode; fp_key_is_self := false; fp_maxres := 16; fp_cap := real_cap; fp_stalepop := false |}.
 Definition ex_evs : list fev :=
   [EInit [ex_peer 1 5; ex_peer 2 3]; EStart [];
    ENodeReply (ex_peer 2 3) false [(ex_peer 3 1, false); (ex_me, false); (ex_peer 4 7, true)] true false [];
-   EDone 2 []; EFail 1; EDone 1 [];
-   ENodeReply (ex_peer 3 1) false [(ex_peer 2 3, false)] true false []; EDone 3 [2; 3]]%N.
+   EDone 2 0 []; EFail 1; EDone 1 1 [];
+   ENodeReply (ex_peer 3 1) false [(ex_peer 2 3, false)] true false []; EDone 3 2 [2; 3]%N]%N.
 Example C12_ex_finder :
   (snd (frun ex_prm f_init ex_evs), f_sched (final_state ex_prm ex_evs), f_contacted (final_state ex_prm ex_evs))
   = ([([], 0); ([OSched 2; OSched 1], 0); ([], 0); ([OSched 3], 0); ([], 0); ([], 0); ([], 0);
@@ -202,4 +241,9 @@ Example C12_ex_reply_size :
   (find_value_reply_size (Some (repeat (15, 44444%N) 8)) (Some 8) 2, find_value_reply_size (Some (repeat (7, 4444%N) 8)) (Some 8) 2,
    find_value_reply_size None (Some 8) 13, guess_udp 3334, guess_udp 5000, guess_udp 3333)
   = (1323, 1243, 688, 4445%N, 5000%N, 4444%N).
+Proof. vm_compute. reflexivity. Qed.
+(* a port the old store rule (0 < port < 65535) let through: the whole findValue page is discarded by the searcher *)
+Example C12_ex_low_port :
+  (store_port_ok 80, decode_compact (mk_compact_addr [x01; x00; x00; x04] 80 (repeat x07 48)), store_port_ok 1024, store_port_ok 65535)
+  = (false, DInvalid, true, true).
 Proof. vm_compute. reflexivity. Qed.
